@@ -34,6 +34,8 @@ def E():
 
 _wrapped = False
 _round_limit = [None]
+LAST_STEP = [None]  # (election object, prev_state) of the most recent stored step: lets a monitor see the tallies
+#                     at the round in which a constructor raised
 
 
 def install_round_budget():
@@ -53,6 +55,7 @@ def install_round_budget():
 
                 def w(self, profile, prev_state, store_states=False, _orig=orig):
                     if store_states:
+                        LAST_STEP[0] = (self, prev_state)
                         n = self.__dict__.get("_vk_rounds", 0) + 1
                         self.__dict__["_vk_rounds"] = n
                         lim = 2 * len(self._profile.candidates) + 4
@@ -186,6 +189,7 @@ def seats(cfg, ncands):
 def run(cfg, profile, call_budget=None, transfer_override=None):
     """construct under the bounded-progress monitors; budget exceptions become outcomes"""
     install_round_budget()
+    LAST_STEP[0] = None
     fn = constructor(cfg, profile, transfer_override)
     try:
         if call_budget:
